@@ -48,6 +48,8 @@ def cases(tier, seed):
         for k in ks:
             for si, s in enumerate(itertools.combinations(range(9), k)):
                 s = list(s)
+                if tier == "thorough" and fi > 0 and si % 3 != fi % 3:
+                    continue   # thorough: all subsets in the base frame, a third of them in each further frame
                 if tier == "quick":
                     # quick: every 3rd 4-subset and every 6th 5-subset in the base frame, a quarter of those in the
                     # seed-selected frame (all subsets and all frames are in thorough); scikit-learn's per-fit
@@ -73,6 +75,8 @@ def cases(tier, seed):
                     for nu in nus:
                         if fl is not None and tier == "quick" and nu != 0.5:
                             continue
+                        if fl is not None and tier == "thorough" and (nu not in (-1.0, 0.5) or fi > 0):
+                            continue   # thorough: separate force layouts of the vector spline for two Poisson ratios in the base frame
                         yield dict(est="VectorSpline2D", poisson=nu, mindist_rel=0.1, pts=s, forces=fl, sc=sc)
 
 
